@@ -78,4 +78,3 @@ META = dict(
     technique="Lean 4 proof (structural induction over dimensions / description lists) + differential correspondence "
               "model vs real code in child processes + oracle on the implementation (direct run through the Go API)",
 )
-READY = True
